@@ -72,7 +72,10 @@ func New(path string, opts ...Option) (*SQLiteStore, error) {
 		// in-memory stores of the process would share one database
 		dsn = fmt.Sprintf("file:ebu-memdb-%d?mode=memory&cache=shared", atomic.AddUint64(&memoryDBCounter, 1))
 	} else {
-		dsn = fmt.Sprintf("file:%s?_busy_timeout=%d", cfg.path, cfg.busyTimeout.Milliseconds())
+		// _pragma is applied to every connection of the pool (a PRAGMA executed through
+		// db.Exec only reaches one of them): without a busy timeout on each connection
+		// concurrent writers fail at once with SQLITE_BUSY
+		dsn = fmt.Sprintf("file:%s?_pragma=busy_timeout(%d)", cfg.path, cfg.busyTimeout.Milliseconds())
 	}
 
 	db, err := dbOpener("sqlite", dsn)
